@@ -203,6 +203,10 @@ func (w *World) Resolve(v ssa.Value) ssa.Value {
 						}
 					}
 				}
+				if s, ok := w.loadEnv[x]; ok && s != nil && s != ssa.Value(x) {
+					v = s
+					continue
+				}
 				if a, ok := addr.(*ssa.Alloc); ok && !(x.Block() != nil && x.Block() == x.Parent().Recover) {
 					if s := w.allocSingleStore(a); s != nil {
 						v = s
